@@ -15,6 +15,8 @@ EXTENDS Sec1, TLC, FiniteSets
 
 VARIABLES mB, mRcv, mPhase
 
+Bug == IF "VERIF_BUG" \in DOMAIN IOEnv THEN IOEnv.VERIF_BUG ELSE "none"      \* a deliberately wrong design, selected by the orchestrator for non-vacuity runs
+
 FP    == 0..(P - 1)
 Aff   == TLCEval({<<x, y>> \in FP \X FP : (y * y) % P = (x * x * x + B) % P})
 Pts   == TLCEval(Aff \cup {Inf})
@@ -28,11 +30,11 @@ UPfx  == IF IOEnv.VERIF_MCFULL = "1" THEN {0, 2, 3, 4, 6, 7, 255} ELSE {4, 6}
 SqrtAlgP(a) == LET r == ModPow(a, (P + 1) \div 4, P) IN IF (r * r) % P = a % P THEN <<r, 1>> ELSE <<0, 0>>
 SetCompressedAlg(v, src) ==
   IF Len(src) # W + 1 THEN <<FALSE, v>>
-  ELSE IF src[1] \notin {2, 3} THEN <<FALSE, v>>
+  ELSE IF (IF Bug = "prefix_flag" THEN (src[1] \div 2) % 2 = 0 ELSE src[1] \notin {2, 3}) THEN <<FALSE, v>>      \* (bug: the prefix tested as a flag bit)
   ELSE LET x == OS2IP(SubSeq(src, 2, W + 1)) IN
        IF x >= P THEN <<FALSE, v>>                                   \* canonical decode of x
        ELSE LET s == SqrtAlgP(FAdd(FMul(FSqr(x), x), B)) IN
-            IF s[2] # 1 THEN <<FALSE, v>>
+            IF s[2] # 1 THEN <<FALSE, IF Bug = "stale_receiver" THEN "clobbered" ELSE v>>                        \* (bug: x decoded into the receiver first)
             ELSE LET y == s[1]  tagEq == (y % 2) = (src[1] % 2) IN
                  <<TRUE, <<x, IF tagEq THEN y ELSE FNeg(y)>>>>
 SetUncompressedAlg(v, src) ==
@@ -54,7 +56,7 @@ RecoverAlg(xs, id) ==
   ELSE LET hi  == (id \div 2) % 2
            xfe == IF hi = 1 THEN FAdd(xs, N % P) ELSE xs            \* field addition: may wrap mod p
            red == SDecode(xfe)                                      \* NewScalarFromBytes(xFe.Bytes())
-       IN  IF ~(red[2] = hi /\ red[1] = xs) THEN <<"err">>
+       IN  IF Bug # "recover_no_overflow_check" /\ ~(red[2] = hi /\ red[1] = xs) THEN <<"err">>
            ELSE LET d == SetCompressedAlg("none", <<2 + (id % 2)>> \o I2OSP(xfe, W)) IN
                 IF d[1] THEN <<"ok", d[2]>> ELSE <<"err">>
 
